@@ -241,6 +241,7 @@ func c15Drive(f int, src io.Reader, streamLen int, zero bool, ngopts pcapgo.NgRe
 }
 
 func c15Judge(c *vlib.Ctx, f int, res c15Res, stream []byte, what string, checkAlloc bool) bool {
+	c.Step()
 	det := func() map[string]any {
 		return map[string]any{"format": fmtNames[f], "mutation": what, "stream_len": len(stream), "stream_hex": fmt.Sprintf("%x", stream[:min(len(stream), 1500)])}
 	}
